@@ -11,7 +11,7 @@ RULE = ('cases = (form, element type, index pattern, extents). Patterns: every w
         'Forms: einsum<Ia,Ib>(a,b), contraction<Ia,Ib>(a,b), einsum on unevaluated expressions, einsum<Ia,Ib,OIndex<..>> for permutations of '
         'the free labels (C++17), einsum<I>(a)/contraction<I>(a) traces, inner, outer. Oracle: generic label-driven Einstein sum (free labels = '
         'labels occurring once, in order of first appearance); result extents and all elements compared (numeric equality on two small-integer '
-        'draws, forward bound (terms+2)*eps*sum|prod| on a generic-real draw). A pattern with a within-list repeat that the library rejects with its '
+        'draws, forward bound (terms+2)*eps*sum|prod| on a generic-real draw). A vector-axis sweep runs the extent of the last label of either operand through the SIMD width classes of every ABI (<W..4W+1) on fixed and sampled patterns. A pattern with a within-list repeat that the library rejects with its '
         'own diagnostic in EVERY configuration is counted rejected-by-design; a between-list pattern must be accepted. non-trivial = reference has '
         '>=2 distinct values or is a true reduction; distinct = case keys.')
 ASSUMPTIONS = ['generic reference einsum in vp_einsum.h', 'small-integer operands make all summation orders bit-identical']
@@ -131,6 +131,27 @@ def generate(seed, tier):
                         key, da, db = r
                         cases[key] = Case(key, 'VP_CASE("@KEY@", vp::c03::pair_explicit_case<%s,%s,Fastor::OIndex<%s>,%s,%s>);'
                                           % (fmt_idx(la), fmt_idx(lb), ','.join(map(str, perm)), tens(tn, da), tens(tn, db)))
+    # ---- vector-axis sweep: the extent of the LAST label of either operand (the axis the general back end vectorises over when it is
+    # free, and the one it reduces over when it is contracted) runs through the classes {<W, W, W+1, 2W-1, 2W, 2W+1, 3W, 4W(+1)} of every ABI
+    sweep = {'f32': [4, 7, 8, 9, 15, 16, 17, 24, 32, 33, 48], 'f64': [2, 4, 5, 7, 8, 9, 12, 16, 17, 24, 32],
+             'i32': [4, 7, 8, 9, 15, 16, 17, 24, 32, 33, 48], 'i64': [2, 4, 5, 7, 8, 9, 12, 16, 17, 24, 32]}
+    fixed_sw = [([0, 1], [0, 2]), ([0, 1, 2], [3, 1, 4]), ([0, 1, 2], [0, 1, 3]), ([0, 1], [2, 1]), ([0, 1], [1, 2]), ([0], [1, 0]), ([0, 1, 2], [2, 3])]
+    cand_sw = [p for p in pats if len(p[0]) + len(p[1]) <= 5]
+    for tn, tk in TYPES:
+        chosen = (rnd.sample(fixed_sw, 4) if quick else fixed_sw) + rnd.sample(cand_sw, 2 if quick else 8)
+        for la, lb in chosen:
+            labels = sorted(set(la + lb))
+            free = [l for l in labels if (la + lb).count(l) == 1]
+            for which_last in ((lb[-1],) if quick and rnd.random() < 0.7 else (lb[-1], la[-1])):
+                for e in (rnd.sample(sweep[tk], 4) if quick else sweep[tk]):
+                    small = [2, 3, 4, 5]
+                    rnd.shuffle(small)
+                    ext = {l: small[i % 4] for i, l in enumerate(labels)}
+                    ext[which_last] = e
+                    r = add_pair('einsum', tk, tn, la, lb, ext, '|sweep')
+                    if r:
+                        key, da, db = r
+                        cases[key] = Case(key, 'VP_CASE("@KEY@", vp::c03::pair_case<0,%s,%s,%s,%s>);' % (fmt_idx(la), fmt_idx(lb), tens(tn, da), tens(tn, db)))
     # ---- within-list repeats (traces inside a pairwise einsum): extended family
     ext_pats = [([0, 0, 1], [1, 2]), ([0, 1], [2, 2, 1]), ([0, 0], [1, 2]), ([0, 1, 1], [0, 2]), ([0, 0, 1], [1]), ([0, 1, 0], [1, 2])]
     for _ in range(10 if quick else 80):
